@@ -32,6 +32,7 @@ ASSUMPTIONS = [
 CPU = 1.0
 
 repl_tree = gen_sexpr.tree(8, gen_sexpr.small_leaf, 4)
+wide = st.lists(gen_sexpr.small_leaf, min_size=6, max_size=9).map(lambda xs: ['and'] + xs)
 decl = st.builds(lambda n, s: ['declare-const', n, s],
                  st.sampled_from(['v1', 'v2', 'x__fresh']),
                  st.sampled_from(['Int', 'Bool', ['_', 'BitVec', '4']]))
@@ -59,6 +60,8 @@ def id_case(draw, trees_strategy=None):
         trees = draw(trees_strategy or gen_sexpr.command_list(5, 12))
         if not trees:
             trees = [['assert', 'x']]
+        if draw(st.integers(0, 3)) == 0:
+            trees = trees + [['assert', draw(wide)], draw(wide)]
     paths = all_paths(trees)
     chosen = prune_nested(
         draw(st.lists(st.sampled_from(paths), min_size=1, max_size=5, unique=True)))
